@@ -314,7 +314,11 @@ def handle (prop : String) (l : String) : String :=
       | none => "bad-tree\tagree"
       | some g =>
         let ops := (splitNonEmpty opsS ";").map parseOp
-        if !ops.all Option.isSome then "bad-op\tagree"
+        -- the hypothesis `World` of the theorems (positive difficulty, no transaction twice along one chain, numbers
+        -- consistent with parents) is checked on every generated tree
+        if !(worldCheck t.nodes && t.nodes.all (fun b => b.id == g.id || (parentOf (mapOf t.nodes) b).isSome)) then
+          "inadmissible-tree\tspec-reject:generated-tree-violates-the-World-assumption-of-the-theorems"
+        else if !ops.all Option.isSome then "bad-op\tagree"
         else
           let ops := ops.filterMap id
           let headers := mode == "headers"
